@@ -18,18 +18,19 @@ open Nervus Nervus.Crash
     counted, and the ordering facts the step model is built on are as extracted -/
 theorem source_ok :
     cfgOfSource.syncSlot = true ∧ cfgOfSource.syncCreate = true ∧ cfgOfSource.freshZero = true ∧
+    cfgOfSource.tailTolerant = true ∧
     Generated.commitSyncsLogBeforeApply = true ∧ Generated.compactSyncsPagesBeforeManifest = true ∧
     Generated.closeSyncsPagesBeforeRewrite = true ∧ Generated.rewriteSyncsTmpBeforeRename = true ∧
     Generated.compactCheckpointIsMaxRunTxid = true ∧ Generated.closeCheckpointIsLastTxid = true ∧
     Generated.replaySkipsUpToCheckpoint = true := by decide
 
-/-- **C02, full strength** (not proved — kept visible): for every history of incarnations cut by a
-    crash at every I/O step in both crash modes, iterated, with no precondition other than fresh
-    external ids (and, beyond what `Round` can express, with compactions, checkpoints and closes
-    inside the incarnations), the next open succeeds and shows an admissible transaction list.
-    False today because of the known findings C01-torn-tail-append (unless C17's repair is in the
-    tree: `tailTolerant`) and C01-live-tree-in-place (compaction, see `counterexample_live_tree`);
-    the proved part is `crash_prefix` below. -/
+/-- **C02, full strength** (not proved — kept visible): for every history of incarnations (open,
+    commits and compactions, death at every I/O step of an open, a commit, a compaction or a
+    close, in both crash modes, iterated) with no precondition other than fresh external ids, the
+    next open succeeds and shows an admissible transaction list.  False today because of the known
+    finding C01-live-tree-in-place (`counterexample_live_tree`: a torn in-place write of a live
+    leaf); not proved for compactions that split a leaf.  The proved part is `crash_prefix`,
+    which adds exactly these two conditions (`CondHist`). -/
 def C02_full : Prop :=
   ∀ (rounds : List Round), FreshHist [] rounds →
     ∃ T m fs', Spec.Admissible [] (rounds.map Round.obs) T ∧
@@ -39,11 +40,15 @@ def C02_full : Prop :=
 /-- a freshly created database represents the empty transaction list -/
 theorem created_closed : Closed [] (created cfgOfSource) := by
   have hlen : (created cfgOfSource).pd.hdr.i2eLen = 0 := by decide
-  refine ⟨⟨by decide, ⟨by decide, by decide⟩⟩, [], 0, by rfl, ?_, ?_⟩
-  · exact ⟨by decide, by decide, by decide, by decide, by intro e; simp [allEdges, logRuns],
-      by intro q; simp [allProps, logRuns], by decide, by decide, by decide⟩
+  have hsegs : (created cfgOfSource).pd.segs = [] := by decide
+  have htrees : (created cfgOfSource).pd.trees = [] := by decide
+  refine ⟨⟨by decide, ⟨by decide, by decide⟩⟩, [], 0, by rfl, ?_, ?_, ?_⟩
+  · exact ⟨by decide, by decide, by decide, by decide, by decide, List.Pairwise.nil, by intro tx h; simp at h⟩
   · exact ⟨⟨by decide, by decide, by decide, by decide, ⟨[3, 4], by decide, by decide, by decide⟩⟩,
       by decide, by decide, by decide, by intro i hi; rw [hlen] at hi; omega⟩
+  · refine ⟨by intro k hk; simp [scan] at hk, by rw [hsegs]; intro s hs; simp at hs,
+      by rw [htrees]; intro t ht; simp at ht, by intro e; simp [allEdges, logRuns, scan], by intro q hq; simp [logRuns] at hq,
+      by decide, ⟨[], by intro q hq; simp [allProps] at hq, fun _ => rfl, fun h => absurd (by decide) h⟩⟩
 
 /-- **C02 (every step, one commit)**: from any state in which files and handle agree on `T`,
     after EVERY prefix of the I/O steps of a commit, in EVERY crash mode (process death; power loss
@@ -80,33 +85,83 @@ theorem open_every_step {T : List Tx} {fs : FS} (hc : Closed T fs) :
     exact hr
   · exact ⟨_, _, by simp only [recover, o3, hfail, o1, o2], content_of_inv hinv⟩
 
+/-- **C02 (every step, compaction)**: from any state in which files and handle agree on `T`,
+    after EVERY prefix of the I/O steps of `compact` (segment persist, property sinking into the
+    live or a new tree, statistics blob, manifest + checkpoint records, log sync), in EVERY crash
+    mode that tears no leaf write of the live property tree, the files represent `T` — provided
+    the sinking does not split a leaf (`NoSplit`). -/
+theorem compact_every_step {T : List Tx} {fs : FS} {m : Mem} {cs : List CTx} {c : Nat}
+    (h : InvOpen T fs m cs c) (ht : TailPre cfgOfSource fs m) (hns : NoSplit cfgOfSource m fs.pv) :
+    let S := ioSteps (compactA cfgOfSource m fs.pv fs.wf)
+    ∀ n mode, mode.tearsLive m.proot (fs.steps (S.take n)).pj = false →
+      Rep T ((fs.steps (S.take n)).crashP mode) ((fs.steps (S.take n)).crashW mode) := by
+  intro S n mode hm
+  obtain ⟨T', hT', hr⟩ := compact_safe h ht hns n mode hm
+  simp only [List.mem_singleton] at hT'
+  subst hT'
+  exact hr
+
+/-- a completed compaction leaves handle and files in agreement on the same list `T` (so that
+    every later operation starts from the invariant again) -/
+theorem compact_keeps_invariant {T : List Tx} {fs : FS} {m : Mem} {cs : List CTx} {c : Nat}
+    (h : InvOpen T fs m cs c) (ht : TailPre cfgOfSource fs m) (hns : NoSplit cfgOfSource m fs.pv) :
+    ∃ cs' c', InvOpen T (run (compactA cfgOfSource m fs.pv fs.wf) .none fs m).fs
+      (run (compactA cfgOfSource m fs.pv fs.wf) .none fs m).mem cs' c' := by
+  obtain ⟨cs', c', hinv, _⟩ := compact_post h ht hns
+  obtain ⟨r1, r2, _⟩ := run_none (compactA cfgOfSource m fs.pv fs.wf) fs m
+  exact ⟨cs', c', by rw [r1, r2]; exact hinv⟩
+
+/-- **C02 (every step, checkpoint-on-close)**: after EVERY prefix of the I/O steps of
+    `checkpoint_on_close` (page sync, then either a log sync or the rewrite of the log as a
+    snapshot: temporary file, its sync, rename, directory sync), in EVERY crash mode — including a
+    lost rename — the files represent `T`. -/
+theorem close_every_step {T : List Tx} {fs : FS} {m : Mem} {cs : List CTx} {c : Nat} (h : InvOpen T fs m cs c) :
+    let S := ioSteps (closeA cfgOfSource m fs.pv fs.wf)
+    ∀ n mode, Rep T ((fs.steps (S.take n)).crashP mode) ((fs.steps (S.take n)).crashW mode) := by
+  intro S n mode
+  obtain ⟨T', hT', hr⟩ := close_safe (cfg := cfgOfSource) h n mode
+  simp only [List.mem_singleton] at hT'
+  subst hT'
+  exact hr
+
 /-- **C02 (all histories: `crash_prefix`)**: starting from a freshly created database, for EVERY
-    list of incarnations — open, any commits, death inside the open or inside a commit at ANY I/O
-    step or between operations, in ANY crash mode — iterated any number of times, provided external
-    ids are fresh and no commit appends behind a torn log tail (`HistOK`: decidable on the model;
-    the second condition is the trigger of C01-torn-tail-append and is vacuous once C17's repair is
-    in the tree), the next open succeeds and its content is that of an admissible transaction
-    list: every acknowledged commit, and each commit in flight at a death entirely or not at all,
-    in commit order. -/
-theorem crash_prefix (rounds : List Round) (hok : HistOK cfgOfSource (created cfgOfSource) [] rounds) :
+    list of incarnations — open, any commits and compactions, death inside the open, a commit, a
+    compaction or the close at ANY I/O step, or between operations, in ANY crash mode — iterated
+    any number of times, with fresh non-zero external ids (what the API guarantees) and the two
+    compaction conditions `CondHist` (no compaction splits a leaf of the property tree; a power
+    loss inside a compaction tears no leaf write of the live tree: the known finding
+    C01-live-tree-in-place), the next open succeeds and its content is that of an admissible
+    transaction list: every acknowledged commit, and each commit in flight at a death entirely or
+    not at all, in commit order. -/
+theorem crash_prefix (rounds : List Round) (hok : FreshHist [] rounds)
+    (hc : CondHist cfgOfSource (created cfgOfSource) rounds) :
     ∃ T m fs', Spec.Admissible [] (rounds.map Round.obs) T ∧
       recover cfgOfSource (afterRounds cfgOfSource (created cfgOfSource) rounds) = .ok (m, fs') ∧
       Spec.Content.same (content m fs'.pv) (Spec.run T) :=
-  crash_recover (cfg := cfgOfSource) source_ok.1 rounds [] (created cfgOfSource) [] created_closed (by simp [allNodes]) hok
+  crash_recover (cfg := cfgOfSource) source_ok.1 rounds [] (created cfgOfSource) [] created_closed (by simp [allNodes])
+    (histOK_of_fresh source_ok.2.2.2.1 rounds _ _ hok hc)
 
-/-! non-vacuity: a concrete two-incarnation history that meets `HistOK`, with a power loss in the
-    middle of the node-table phase of a two-node commit (unsynced meta write persisted) -/
+/-! non-vacuity: a concrete four-incarnation history that meets the hypotheses: a power loss in
+    the middle of the node-table phase of a two-node commit (unsynced meta write persisted); a
+    completed compaction followed by a power loss inside a second compaction that sinks into the
+    live tree (blob write persisted, leaf write lost); a third compaction and a power loss with a
+    lost rename inside the close that rewrites the log; a last clean incarnation -/
 def ex_tx1 : Tx := ⟨[1001], [1000], [10000]⟩
 def ex_tx2 : Tx := ⟨[2001, 2002], [2000], [20000]⟩
 def ex_tx3 : Tx := ⟨[3001], [], [30000]⟩
+def ex_tx4 : Tx := ⟨[4001], [4000], [40000]⟩
 def ex_rounds : List Round :=
-  [⟨[ex_tx1], .inCommit ex_tx2 29, .power [.keep, .drop] 0 false⟩, ⟨[ex_tx3], .idle, .proc⟩]
+  [⟨[.commit ex_tx1], .inCommit ex_tx2 29, .power [.keep, .drop] 0 false⟩,
+   ⟨[.commit ex_tx3, .compact, .commit ex_tx4], .inCompact 32, .power [.keep, .drop] 0 false⟩,
+   ⟨[.compact], .inClose 8, .power [] 0 true⟩,
+   ⟨[], .idle, .proc⟩]
 
-example : HistOK cfgOfSource (created cfgOfSource) [] ex_rounds := by decide
+example : FreshHist [] ex_rounds := by decide
+example : CondHist cfgOfSource (created cfgOfSource) ex_rounds := by decide
 example : (match recover cfgOfSource (afterRounds cfgOfSource (created cfgOfSource) ex_rounds) with
     | .ok (m, fs) => some (content m fs.pv)
     | .error _ => none) =
-    some ⟨[1001, 2001, 2002, 3001], [1000, 2000], [10000, 20000, 30000]⟩ := by decide
+    some ⟨[1001, 2001, 2002, 3001, 4001], [4000, 1000, 2000], [10000, 20000, 30000, 40000]⟩ := by decide
 
 /-! counterexamples -/
 
@@ -119,7 +174,7 @@ def cfgPinned : Cfg :=
     opened again (`non-dense internal id`). -/
 theorem counterexample_pinned_slot_after_len :
     (match recover cfgPinned (afterRounds cfgPinned (created cfgPinned)
-        [⟨[ex_tx1], .inCommit ex_tx2 24, .power [.drop, .keep] 0 false⟩]) with
+        [⟨[.commit ex_tx1], .inCommit ex_tx2 24, .power [.drop, .keep] 0 false⟩]) with
       | .ok _ => none
       | .error e => some e) = some Err.nonDense := by decide
 
@@ -132,15 +187,18 @@ theorem counterexample_pinned_creation :
 
 /-- current tree, known finding C01-live-tree-in-place: compaction sinks properties into the live
     property tree in place; power loss with a torn write of the leaf page during the second
-    compaction makes a property of an acknowledged, already compacted transaction unreadable. -/
+    compaction makes a property of an acknowledged, already compacted transaction unreadable.
+    The history has fresh ids and splits no leaf; the condition of `crash_prefix` it violates is
+    exactly the torn live leaf (`CondHist`). -/
+def live_tree_rounds : List Round :=
+  [⟨[.commit ⟨[1001], [1000], [10000]⟩, .compact, .commit ⟨[2001], [2000], [20000]⟩], .inCompact 32,
+    .power [.drop, .torn] 0 false⟩]
+
 theorem counterexample_live_tree :
-    let w0 : World := ⟨created cfgOfSource, none⟩
-    let w1 := (w0.step cfgOfSource .openOp).1
-    let w2 := (w1.step cfgOfSource (.commit ⟨[1001], [1000], [10000]⟩)).1
-    let w3 := (w2.step cfgOfSource .compact).1
-    let w4 := (w3.step cfgOfSource (.commit ⟨[2001], [2000], [20000]⟩)).1
-    let w5 := (w4.step cfgOfSource .compact (.crashAt 32) (.power [.drop, .torn] 0 false)).1
-    (match recover cfgOfSource w5.fs with
+    FreshHist [] live_tree_rounds ∧ ¬ CondHist cfgOfSource (created cfgOfSource) live_tree_rounds ∧
+    CondHist cfgOfSource (created cfgOfSource)
+      (live_tree_rounds.map (fun r => { r with mode := .power [.drop, .keep] 0 false })) ∧
+    (match recover cfgOfSource (afterRounds cfgOfSource (created cfgOfSource) live_tree_rounds) with
       | .ok (m, fs) => some ((content m fs.pv).props.contains 10000)
       | .error _ => none) = some false := by decide
 
